@@ -70,7 +70,7 @@ func ndEnvInt(name string, def int) int {
 // ndPlan: the configuration of schedule i for the given master seed.
 func ndPlan(master uint64, i int, thorough bool) ndConfig {
 	rng := vh.NewRng(master*1000003 + uint64(i)*7919 + 17)
-	profiles := []string{"sync", "async", "lossy", "crash", "byz", "mixed", "part", "stall", "byz", "mixed"}
+	profiles := []string{"sync", "async", "lossy", "crash", "byz", "mixed", "part", "stall", "latepay", "mixed"}
 	c := ndConfig{id: i, seed: rng.U64() >> 1, n: 4, rounds: 2, maxSteps: 900, profile: profiles[i%len(profiles)]}
 	if thorough {
 		c.n = 4 + rng.Intn(4)
@@ -94,7 +94,7 @@ func ndPlan(master uint64, i int, thorough bool) ndConfig {
 		}
 		c.honest[k] = true
 	}
-	wantByz := c.profile == "byz" || c.profile == "mixed" || c.profile == "stall" || (thorough && rng.Intn(3) == 0)
+	wantByz := c.profile == "byz" || c.profile == "mixed" || c.profile == "stall" || (c.profile == "latepay" && rng.Intn(2) == 0) || (thorough && rng.Intn(3) == 0)
 	if v := os.Getenv("VERIF_ND_BYZ"); v != "" {
 		wantByz = v == "1"
 	}
